@@ -17,7 +17,9 @@ from simkit.runner import ddmin_list
 
 LABELS = ["1.0.sim", "1.1.sim", "2.0.sim", "1.1.sim+3.gabc.dirty"]
 CLOCK_DELTAS = [1, 3600, 2 * 86400, 31 * 86400, 400 * 86400, -86400, -40 * 86400]
-ENTRY_HOW = ["garbage", "prefix", "empty", "gone_class", "null"]
+ENTRY_HOW = ["garbage", "prefix", "empty", "gone_class", "null", "last_hit"]
+# damaged time stamps of an entry: the ends of SQLite's INTEGER range, zero, negative, a float, a text
+LAST_HITS = [2 ** 63 - 1, 2 ** 63 - 2, -(2 ** 63), 0, -1, 1.5e300, "yesterday", None]
 LAYOUT_HOW = [("models", "wrong_columns"), ("models", "drop"), ("metadata", "wrong_columns"), ("metadata", "drop"),
               ("metadata", "drop_keys"), ("extra", "extra_table"), ("models", "wrong_types"), ("models", "no_pk"),
               ("models", "extra_column"), ("metadata", "wrong_types")]
@@ -340,7 +342,8 @@ class Engine:
                     outcome = None
 
                     def call(actor):
-                        return proc[0].parse(text, **kw)
+                        # a caller reads the text from a file every time: a new string object per call, released after it
+                        return proc[0].parse((text + " ")[:-1], **kw)
 
                     try:
                         tree = sched.run_inline(call)
@@ -449,6 +452,11 @@ class Engine:
                     return False
                 h, v, blob = rows[op["row"] % len(rows)]
                 how = op["how"]
+                if how == "last_hit":
+                    val = LAST_HITS[int(op.get("frac", 0.5) * len(LAST_HITS)) % len(LAST_HITS)]
+                    c.execute("UPDATE models SET last_hit=? WHERE txt_hash=? AND pymoca_version=?", (val, h, v))
+                    c.commit()
+                    return True
                 if how == "garbage":
                     new = b"\x80\x05verif-garbage\xff\x00\x01"
                 elif how == "prefix":
